@@ -52,12 +52,12 @@ Proof.
 Qed.
 
 Example ex_is_answer_hdr_only :
-  is_answer (mkReq 7 [1]) (mkMsg 7 true false 2 0 0 0 0 (Some [])) = true /\
-  is_answer (mkReq 7 [1]) (mkMsg 7 true false 0 0 0 0 0 (Some [])) = false /\
-  is_answer (mkReq 7 [1]) (mkMsg 7 true false 0 1 0 0 0 (Some [1])) = true /\
-  is_answer (mkReq 7 [1]) (mkMsg 8 true false 0 1 0 0 0 (Some [1])) = false /\
-  is_answer (mkReq 7 [1]) (mkMsg 7 false false 0 1 0 0 0 (Some [1])) = false /\
-  is_answer (mkReq 7 [1]) (mkMsg 7 true false 0 1 0 0 0 (Some [2])) = false.
+  is_answer (mkReq 7 [1]) (mkMsg 7 true false 2 0 0 0 0 (Some []) (Some [])) = true /\
+  is_answer (mkReq 7 [1]) (mkMsg 7 true false 0 0 0 0 0 (Some []) (Some [])) = false /\
+  is_answer (mkReq 7 [1]) (mkMsg 7 true false 0 1 0 0 0 (Some [1]) (Some [])) = true /\
+  is_answer (mkReq 7 [1]) (mkMsg 8 true false 0 1 0 0 0 (Some [1]) (Some [])) = false /\
+  is_answer (mkReq 7 [1]) (mkMsg 7 false false 0 1 0 0 0 (Some [1]) (Some [])) = false /\
+  is_answer (mkReq 7 [1]) (mkMsg 7 true false 0 1 0 0 0 (Some [2]) (Some [])) = false.
 Proof. vm_compute. repeat split. Qed.
 
 (* ------------------------------------------------------- receive loop *)
@@ -176,9 +176,9 @@ Qed.
 
 Example ex_dgram :
   dgram_run 2 50 [0]
-    [mkAtt FNone 1000 [(10, PMsg (mkMsg 1001 true false 0 1 0 0 0 (Some [0]))); (60, PMsg (mkMsg 1000 true false 0 1 0 0 0 (Some [0])))];
-     mkAtt FNone 1001 [(5, PGarbage); (7, PMsg (mkMsg 1000 true false 0 1 0 0 0 (Some [0]))); (9, PMsg (mkMsg 1001 true true 0 1 0 0 0 (Some [0])))]]
-  = (DOk 1 59 (mkMsg 1001 true true 0 1 0 0 0 (Some [0])), 2) /\
+    [mkAtt FNone 1000 [(10, PMsg (mkMsg 1001 true false 0 1 0 0 0 (Some [0]) (Some []))); (60, PMsg (mkMsg 1000 true false 0 1 0 0 0 (Some [0]) (Some [])))];
+     mkAtt FNone 1001 [(5, PGarbage); (7, PMsg (mkMsg 1000 true false 0 1 0 0 0 (Some [0]) (Some []))); (9, PMsg (mkMsg 1001 true true 0 1 0 0 0 (Some [0]) (Some [])))]]
+  = (DOk 1 59 (mkMsg 1001 true true 0 1 0 0 0 (Some [0]) (Some [])), 2) /\
   dgram_run 2 50 [0] [] = (DErr 4 150, 3).
 Proof. vm_compute. auto. Qed.
 
@@ -194,7 +194,7 @@ Proof.
   destruct (m_tc m') eqn:E; intros H; inversion H; subst; auto.
 Qed.
 
-Example ex_tc : ds_result (TOk (mkMsg 1 true true 0 1 0 0 0 (Some [0]))) (TErr 9) = (TErr 9, true).
+Example ex_tc : ds_result (TOk (mkMsg 1 true true 0 1 0 0 0 (Some [0]) (Some []))) (TErr 9) = (TErr 9, true).
 Proof. reflexivity. Qed.
 
 (* --------------------------------------- stream response-timeout config *)
